@@ -1226,7 +1226,7 @@ fn run(ctx: &mut Ctx) {
         });
     }
     //   command head + random tails over the full alphabet, length 5..8
-    let n_random_head = if quick { 3_000 } else { 500_000 };
+    let n_random_head = if quick { 3_000 } else { 300_000 };
     for _ in 0..n_random_head {
         let len = 4 + rng.below(4) as usize;
         let mut v = vec![rng.pick(&heads).clone()];
@@ -1247,7 +1247,7 @@ fn run(ctx: &mut Ctx) {
 
     // (2b) grammar-derived valid programs covering every instruction kind, and mutations of them
     let alpha = Alpha::small();
-    let n_valid = if quick { 450 } else { 60_000 };
+    let n_valid = if quick { 450 } else { 40_000 };
     let n_mut = if quick { 4 } else { 8 };
     for k in 0..n_valid {
         let count = 1 + rng.below(3);
